@@ -34,7 +34,7 @@ abbrev Str := List Char
 def isWhite (c : Char) : Bool := Gen.ppWhite.contains c.toNat
 /-- `\s` for the atom regex -/
 def isSpace (c : Char) : Bool := Gen.reSpace.contains c.toNat
-/-- `str.isspace` (what `float()` strips) -/
+/-- what `float()` strips from both ends -/
 def isPySpace (c : Char) : Bool := Gen.pySpace.contains c.toNat
 
 def skipWs (s : Str) : Str := s.dropWhile isWhite
@@ -437,12 +437,13 @@ def isInfix (y : Str) : Str → Bool
   | [] => y.isEmpty
   | c :: x => isPrefix y (c :: x) || isInfix y x
 
-/-- `float(x)` for the result of `literal_eval` in `_range_in` (line 36) -/
-def litFloat (x : LitVal) : FloatRes ⊕ Err :=
+/-- `float(x)` for the result of `literal_eval` in `_range_in` (line 36); `none` is the
+    `TypeError` of `float(list)` -/
+def litFloat (x : LitVal) : Option FloatRes :=
   match x with
-  | .item (.num q) => .inl (.num (.fin q))
-  | .item (.str s) => .inl (pyFloat s)
-  | .list _ => .inr .typeError
+  | .item (.num q) => some (.num (.fin q))
+  | .item (.str s) => some (pyFloat s)
+  | .list _ => none
 
 /-- `_range_in(x, *y)` (lines 30-59), evaluation order kept -/
 def rangeIn (x : Str) (y : List Str) : Outcome :=
@@ -452,10 +453,10 @@ def rangeIn (x : Str) (y : List Str) : Outcome :=
     match y with
     | [lb, lo, hi, rb] =>
       match litFloat lx with
-      | .inr e => .err e
-      | .inl .unmodelled => .unmodelled
-      | .inl .valueError => .err .valueError
-      | .inl (.num nx) =>
+      | none => .err .typeError
+      | some .unmodelled => .unmodelled
+      | some .valueError => .err .valueError
+      | some (.num nx) =>
         match pyFloat lo with
         | .unmodelled => .unmodelled
         | .valueError => .err .valueError
